@@ -639,6 +639,11 @@ def multigrid(model, sfield, efield, var, **kwargs):
             # Adjust semicoarsening and line relaxation if they cycle.
             if var.sc_cycle:
                 var.sc_dir = next(var.sc_cycle)
+                # The coarsest level depends on sc_dir, and so does cycmax.
+                if level == var.clevel[var.sc_dir]:
+                    cycmax = 1
+                else:
+                    cycmax = var.cycmax
             if var.lr_cycle:
                 var.lr_dir = next(var.lr_cycle)
 
